@@ -264,10 +264,12 @@ prop('C16', units=['fmt', 'insig', 'round', 'config'], level='proof',
      level_text=('PARTIAL. Verus proves on the real bodies: round_ascii_digits (the digit string kept, times the power of ten of the digits removed beyond the rounding '
                  'position, equals round_mag of the big-endian ASCII number at that position under the mode and sign of the rounder -- carry past nines and all-nines overflow '
                  'included), the insignificant-digit data with its lazily evaluated trailing-zero flag, default_with_sign using the configured default mode (symbolic), and '
-                 'format_ascii_digits_no_integer: output length and decimal point for every input, and for a rounding point at or left of the first stored digit the printed value is '
-                 'round_mag (0 or 1) at that place. The same oracle round_mag decides with_scale_round (C06), which is the agreement the property demands. NOT decided: the '
-                 'interior-rounding branch of format_ascii_digits_no_integer beyond safety, format_ascii_digits_with_integer_and_fraction, zero_right_pad_integer_ascii_digits, '
-                 'the exponential forms, and flag handling (delegated to std pad_integral)'),
+                 'the three digit formatters of the {:.N} path, each against ONE statement -- the output has exactly N fractional digits and, read without the point, is the integer '
+                 'round_mag(value, dropped digits) (or the value padded with zeros when nothing is dropped): format_ascii_digits_no_integer (rounding point left of, at, or inside the stored '
+                 'digits, all-nines carry to 1.000 included), format_ascii_digits_with_integer_and_fraction (carry into the integer digits included) and '
+                 'zero_right_pad_integer_ascii_digits (exponent folded into zeros exactly when within the configured padding limit, else nothing changes). The same oracle round_mag decides '
+                 'with_scale_round (C06), which is the agreement the property demands. NOT decided: format_full_scale itself and the exponential forms (String / fmt::Formatter / write! are '
+                 'interleaved with the digit logic and cannot be brought under a Verus contract), and flag handling (delegated to std pad_integral)'),
      level_note=_NOTE_COMMON + ' Vec helpers fill_slice(&mut v[..n]) and copy_within(..a, i) are replaced by shim helpers with assumed contracts (R6).',
      technique=_TECH)
 
